@@ -32,7 +32,8 @@ DRIVER = 'DeepModel/Driver/C09.lean'
 BUDGET = {'quick': 900, 'thorough': 8000}
 RULE = ('det mode: 1..4 snapshots (thorough ..7), each with an outcome (ok / unconvertible / send raises Exception / '
         'send raises BaseException / body dies before sending with either class); a random interleaving of push, '
-        'start (any queued task, any order), finish, callback, one or two flushes started at a random point, and '
+        'start (any queued task, any order), finish, callback, pushes also split into their regions (pushBegin = up to '
+        'pool.submit, pushStore = the store + callback attachment, with starts/finishes in between), one or two flushes started at a random point, and '
         'pushes after flush began; 90% of schedules run to completion. pool mode (1 in 12): real 2-worker pool, 1..5 '
         'snapshots failing in send or ok, flush started while tasks are still blocked in send, released in random '
         'order. Non-trivial = a task that fails was still unfinished when flush began, or a callback ran after flush '
@@ -41,9 +42,11 @@ TRUSTED = ['the executor: a callable accepted by pool.submit runs exactly once o
            'until done and re-raises; done-callbacks run after completion (model semantics, Model/Tasks.lean)',
            'dict.values() / list(view) of the handler\'s own dict do not raise (whitelist of c09_flush_skeleton_guarded)',
            'threading.Event / Semaphore / Thread behave as documented (gates)']
-ASSUMPTIONS = ['every task ends within the 10 s bound of future.result(10) (a slower task is abandoned by flush: by '
-               'design, not modelled)',
-               'submit_task and flush are not in the middle of each other (the statement says "previously accepted")']
+ASSUMPTIONS = ['known finding C09/flush-gives-up-after-10s: a wait of flush that runs into its 10 s bound leaves the task '
+               'unfinished (modelled: flushTimeout; c09_drained_partial names the hypothesis)',
+               'known finding C09/flush-misses-task-being-submitted: a flush that begins while a push is between '
+               'pool.submit and the store does not see that task (modelled: pushBegin/pushStore; hypothesis named); the '
+               'judged stream keeps flushBegin out of that window']
 
 WAIT = 20.0
 POOL_STALL = 5.0      # real pool: an accepted task that no worker picks up within this is reported as stalled
@@ -126,9 +129,16 @@ class StepPool:
         self.local = threading.local()
 
     def submit(self, fn, *args, **kw):
+        b = self.bench
         f = ObsFuture()
-        f.bench = self.bench
+        f.bench = b
         self.jobs.append(Job(len(self.jobs) + 1, fn, args, f))
+        b.accepted.append(b.pushing_k)
+        if b.park_submit:
+            # `pushBegin`: the pool has the task, submit_task has not stored it yet — the caller stops here
+            b.park_submit = False
+            b.submit_parked.set()
+            b.submit_go.wait(WAIT)
         return f
 
     def shutdown(self, wait=True, **kw):
@@ -176,6 +186,9 @@ class GateDict(dict):
             if not job.cb_go.wait(WAIT):
                 raise TimeoutError('callback gate')
             job.cb_done = True
+        elif job is None and b.pool is not None and isinstance(key, int) and 1 <= key <= len(b.pool.jobs):
+            # the done-callback run at once by add_done_callback on an already finished future (caller's thread)
+            b.pool.jobs[key - 1].cb_done = True
         return super().__contains__(key)
 
     def values(self):
@@ -202,8 +215,8 @@ class Channel:
         b = self.bench
         k = b.by_id.get(bytes(converted.ID))
         with b.lock:
-            b.sends.append((k, threading.get_ident()))
-        if b.mode == 'pool' and threading.get_ident() != b.caller:
+            b.sends.append((k, threading.current_thread()))
+        if b.mode == 'pool' and threading.current_thread() not in b.callers:
             b.at_send[k].set()
             if not b.send_go[k].wait(WAIT):
                 raise TimeoutError('send gate')
@@ -278,7 +291,13 @@ class Bench:
         self.push = PushService(Grpc(Channel(self)), self.handler)
         self.snaps = []
         self.by_id = {}
-        self.caller = threading.get_ident()
+        self.caller = threading.current_thread()
+        self.callers = {self.caller}       # threads that call push_snapshot (the application side)
+        self.pushing_k = None
+        self.park_submit = False
+        self.submit_parked = threading.Event()
+        self.submit_go = threading.Event()
+        self.push_thread = None
         self.refused = []
         self.pushed = 0          # push_snapshot calls made
         self.accepted = []       # snapshot index per accepted task (job id - 1 -> k)
@@ -304,6 +323,7 @@ class Bench:
             def submit(fn, *args, **kw):
                 f = real_submit(self._wrap(fn), *args, **kw)
                 self.futures.append(f)
+                self.accepted.append(self.pushing_k)
                 return f
             self.handler._pool.submit = submit
 
@@ -311,7 +331,7 @@ class Bench:
         def run(snapshot):
             k = self.snaps.index(snapshot)
             with self.lock:
-                self.body_threads.setdefault(k, []).append(threading.get_ident())
+                self.body_threads.setdefault(k, []).append(threading.current_thread())
             return fn(snapshot)
         return run
 
@@ -329,17 +349,50 @@ class Bench:
         self.pushed += 1
         if k >= len(self.snaps):
             raise core.Infra('schedule pushes more snapshots than the case has')
-        n = len(self.pool.jobs) if self.pool else len(self.futures)
+        n = len(self.accepted)
+        self.pushing_k = k
         try:
             self.push.push_snapshot(self.snaps[k])
         except BaseException as e:  # noqa: B902
             self.refused.append((k, type(e).__name__, isinstance(e, Exception)))
             return
-        n2 = len(self.pool.jobs) if self.pool else len(self.futures)
-        if n2 == n + 1:
-            self.accepted.append(k)
-        else:
+        if len(self.accepted) != n + 1:
             self.refused.append((k, 'silently-not-submitted', False))
+
+    def do_push_begin(self):
+        """push_snapshot on an application thread of its own, stopped inside submit_task right after pool.submit"""
+        if self.push_thread is not None:
+            raise core.Infra('schedule starts a second push while one is inside submit_task')
+        self.park_submit = True
+        self.submit_parked.clear()
+        self.submit_go.clear()
+        done = threading.Event()
+
+        def body():
+            self.callers.add(threading.current_thread())
+            try:
+                self.do_push()
+            finally:
+                self.park_submit = False
+                done.set()
+                self.submit_parked.set()
+        self.push_thread = (threading.Thread(target=body, daemon=True), done)
+        self.push_thread[0].start()
+        if not self.submit_parked.wait(WAIT):
+            raise Stalled('push did not reach pool.submit')
+        if done.is_set():                  # refused (or finished) without reaching the pool
+            self.push_thread[0].join(WAIT)
+            self.push_thread = None
+
+    def do_push_store(self):
+        if self.push_thread is None:
+            return
+        t, done = self.push_thread
+        self.submit_go.set()
+        if not done.wait(WAIT):
+            raise Stalled('push did not return after pool.submit')
+        t.join(WAIT)
+        self.push_thread = None
 
     def job(self, jid):
         if self.pool is None or jid < 1 or jid > len(self.pool.jobs):
@@ -359,7 +412,7 @@ class Bench:
         job.thread.start()
         self.wait_job(job, 'start')
         with self.lock:
-            self.body_threads.setdefault(self.accepted[jid - 1], []).append(job.thread.ident)
+            self.body_threads.setdefault(self.accepted[jid - 1], []).append(job.thread)
 
     def do_finish(self, jid):
         job = self.job(jid)
@@ -498,10 +551,10 @@ class Bench:
             tasks.append({'id': n + 1, 'fut': self.fut_state(f),
                           'cb': bool(job.cb_done) if (job and self.has_pending) else None,
                           'runs': len(bodies.get(k, [])), 'sends': len([1 for kk, _ in sends if kk == k]),
-                          'on_caller': any(t == self.caller for t in bodies.get(k, [])) or
-                          any(t == self.caller for kk, t in sends if kk == k)})
+                          'on_caller': any(t in self.callers for t in bodies.get(k, [])) or
+                          any(t in self.callers for kk, t in sends if kk == k)})
         escaped = [[j.idx, j.escaped] for j in self.pool.jobs if j.escaped] if self.pool else []
-        return {'escaped': escaped, 'dead_workers': self.dead_workers(), 'caller_sends': sorted(kk for kk, t in sends if t == self.caller and kk is not None),
+        return {'escaped': escaped, 'dead_workers': self.dead_workers(), 'caller_sends': sorted(kk for kk, t in sends if t in self.callers and kk is not None),
                 'degraded': list(self.degraded),
                 'open': (bool(self.handler._open) if hasattr(self.handler, '_open') else None),
                 'pending': self.pending_keys(),
@@ -513,6 +566,7 @@ class Bench:
     def close(self):
         self.gate_callbacks = False
         self.flush_go.set()
+        self.submit_go.set()
         for k in self.send_go:
             self.send_go[k].set()
         if self.pool:
@@ -548,6 +602,10 @@ def run_det(case):
             s = st['s']
             if s == 'push':
                 b.do_push()
+            elif s == 'pushBegin':
+                b.do_push_begin()
+            elif s == 'pushStore':
+                b.do_push_store()
             elif s == 'start':
                 b.do_start(st['id'])
             elif s == 'finish':
@@ -659,6 +717,41 @@ def run_pool(case):
         b.close()
 
 
+OVERLAP = 'C09/flush-misses-task-being-submitted'
+GIVES_UP = 'C09/flush-gives-up-after-10s'
+
+
+def known_replays():
+    P, F = {'s': 'push'}, {'s': 'flushBegin'}
+    return [
+        (OVERLAP,
+         'flush() begins while a push is inside submit_task, between pool.submit and the store into the pending map: '
+         'flush finds nothing pending and returns at once; the accepted task is still running and was not refused',
+         {'mode': 'det', 'outcomes': ['ok'],
+          'sched': [{'s': 'pushBegin'}, {'s': 'start', 'id': 1, 'w': 0}, F, {'s': 'pushStore', 'id': 1},
+                    {'s': 'finish', 'id': 1}, {'s': 'callback', 'id': 1}]}),
+        (GIVES_UP,
+         'flush() waits future.result(10) per task and swallows the TimeoutError: a task slower than 10 s is left '
+         'unfinished when flush returns (the bound is simulated: the wait raises TimeoutError at once)',
+         {'mode': 'det', 'flush1_times_out': True, 'judge_timeout': True, 'outcomes': ['ok'],
+          'sched': [P, {'s': 'start', 'id': 1, 'w': 0}, F, {'s': 'finish', 'id': 1}, {'s': 'callback', 'id': 1}]}),
+    ]
+
+
+def known_finding(case, obs):
+    if case.get('judge_timeout'):
+        return GIVES_UP
+    inside = False
+    for st in case.get('sched', []):
+        if st['s'] == 'pushBegin':
+            inside = True
+        elif st['s'] == 'pushStore':
+            inside = False
+        elif st['s'] == 'flushBegin' and inside:
+            return OVERLAP
+    return None
+
+
 def run_impl(case):
     try:
         return run_pool(case) if case['mode'] == 'pool' else run_det(case)
@@ -683,36 +776,51 @@ def gen_det(rng, tier):
     flushes = rng.choice([1, 1, 1, 2])
     open_ = True
     accepted = 0
+    window = None                             # job id of a push that is between pool.submit and its store
     complete = rng.random() < 0.9
     steps = 0
     while steps < 80:
         steps += 1
         opts = []
-        if pushed < n and open_:
-            opts += ['push'] * 3
-        if not open_ and pushed < n + extra:
-            opts += ['push']
+        if window is None:
+            if pushed < n and open_:
+                opts += ['push'] * 3
+                if flush == 'idle':
+                    opts += ['pushBegin']
+            if not open_ and pushed < n + extra:
+                opts += ['push', 'pushBegin']
+        else:
+            opts += ['pushStore'] * 2
         if queued:
             opts += ['start'] * 2
         if running:
             opts += ['finish'] * 2
-        if finished:
+        if [j for j in finished if j != window]:
             opts += ['callback'] * 2
-        if flush == 'idle' and (pushed > 0 or rng.random() < 0.05):
+        # a flush that begins while a push is inside submit_task is the known finding: separate stream
+        if window is None and flush == 'idle' and (pushed > 0 or rng.random() < 0.05):
             opts += ['flushBegin']
-        if flush == 'returned' and flushes > 1:
+        if window is None and flush == 'returned' and flushes > 1:
             opts += ['flushBegin']
         if not opts:
             break
-        if not complete and steps > 4 and rng.random() < 0.12:
+        if not complete and steps > 4 and window is None and rng.random() < 0.12:
             break
         a = rng.choice(opts)
-        if a == 'push':
-            sched.append({'s': 'push'})
+        if a in ('push', 'pushBegin'):
+            sched.append({'s': a})
             pushed += 1
             if open_:
                 accepted += 1
                 queued.append(accepted)
+                if a == 'pushBegin':
+                    window = accepted
+        elif a == 'pushStore':
+            sched.append({'s': 'pushStore', 'id': window})
+            if window in finished:            # the done-callback runs at once when attached to a finished future
+                finished.remove(window)
+                cbd.append(window)
+            window = None
         elif a == 'start':
             j = rng.choice(queued)
             queued.remove(j)
@@ -724,7 +832,7 @@ def gen_det(rng, tier):
             finished.append(j)
             sched.append({'s': 'finish', 'id': j})
         elif a == 'callback':
-            j = rng.choice(finished)
+            j = rng.choice([x for x in finished if x != window])
             finished.remove(j)
             cbd.append(j)
             sched.append({'s': 'callback', 'id': j})
@@ -736,6 +844,8 @@ def gen_det(rng, tier):
             flush = 'waiting'
         if flush == 'waiting' and not queued and not running:
             flush = 'returned'
+    if window is not None:
+        sched.append({'s': 'pushStore', 'id': window})
     return {'mode': 'det', 'outcomes': outcomes[:max(pushed, 1)], 'sched': sched}
 
 
@@ -884,7 +994,7 @@ def accepted_outcomes(case, obs_state):
     for st in case['sched']:
         if st['s'] == 'flushBegin':
             closed = True
-        elif st['s'] == 'push':
+        elif st['s'] in ('push', 'pushBegin'):
             if not closed and k < len(case['outcomes']):
                 outs.append(case['outcomes'][k])
             k += 1
@@ -928,7 +1038,8 @@ def judge_state(case, o, where, pushes_after_close, outs):
         if late:
             v.append(f'{where}: a second flush() (another caller) has returned but tasks {late} accepted before it '
                      f'are not finished')
-    if o['flush'] == 'returned' and not (case.get('flush1_times_out') and o.get('flush_runs', 0) < 2):
+    if o['flush'] == 'returned' and not (case.get('flush1_times_out') and not case.get('judge_timeout')
+                                         and o.get('flush_runs', 0) < 2):
         late = [t['id'] for t in o['tasks'] if t['fut'] != 'done']
         if late:
             v.append(f'{where}: flush() has returned but tasks {late} accepted before it are not finished')
@@ -970,7 +1081,7 @@ def oracle(case, obs):
         where = f'after step {n} ({st["s"]}{" " + str(st["id"]) if "id" in st else ""})'
         if st['s'] == 'flushBegin':
             closed = True
-        if st['s'] == 'push' and closed:
+        if st['s'] in ('push', 'pushBegin') and closed:
             want_ref += 1
             if o['refused'] != want_ref:
                 v.append(f'{where}: a push after flush closed the handler was not refused visibly '
